@@ -122,7 +122,7 @@ func cacheLookupRules(c *Ctx, rule string) {
 			okDst := false
 			if se, ok := unparen(call.Args[0]).(*ast.SliceExpr); ok && se.Low == nil && se.High != nil && !se.Slice3 {
 				if hc, ok := unparen(se.High).(*ast.CallExpr); ok && len(hc.Args) == 0 {
-					if sel, ok := unparen(hc.Fun).(*ast.SelectorExpr); ok && sel.Sel.Name == "length" && types.ExprString(sel.X) == sB {
+					if sel, ok := unparen(hc.Fun).(*ast.SelectorExpr); ok && sel.Sel.Name == "length" && types.ExprString(stripAddr(sel.X)) == sB {
 						if f, _ := info.Uses[sel.Sel].(*types.Func); fnIs(f, "packetcache", "entry", "length") {
 							if id, ok := unparen(se.X).(*ast.Ident); ok {
 								for _, po := range params {
@@ -170,7 +170,7 @@ func cacheLookupRules(c *Ctx, rule string) {
 						}
 						if s := info.Selections[sel]; s != nil {
 							if rt := s.Recv(); rt != nil && strings.HasSuffix(strings.TrimPrefix(rt.String(), "*"), "packetcache.entry") {
-								if types.ExprString(sel.X) != sB {
+								if types.ExprString(stripAddr(sel.X)) != sB {
 									okSame = false
 								}
 							}
@@ -196,13 +196,22 @@ func cacheLookupRules(c *Ctx, rule string) {
 	}
 	// the scan of get passes over every slot that does not hold the packet:
 	// it ends early only with the hit
-	if g := p.Func("packetcache", "", "get"); g != nil {
+	// (when the scan has been folded into Cache.Get, that is the function the rules below are about)
+	lookupFn := p.Func("packetcache", "", "get")
+	if lookupFn == nil {
+		lookupFn = p.Func("packetcache", "Cache", "Get")
+	}
+	if g := lookupFn; g != nil {
 		ff := eng.Analyze(g)
 		params := g.params(g.Pkg.TypesInfo)
 		okScan, nloops, why := true, 0, ""
 		ast.Inspect(g.Body(), func(n ast.Node) bool {
-			rs, ok := n.(*ast.RangeStmt)
-			if !ok {
+			rs := asScanLoop(g.Pkg.TypesInfo, n)
+			if rs == nil {
+				if fr, isFor := n.(*ast.ForStmt); isFor {
+					nloops++
+					okScan, why = false, "the loop at "+p.PosStr(fr.Pos())+", which does not visit every slot"
+				}
 				return true
 			}
 			nloops++
@@ -245,7 +254,7 @@ func cacheLookupRules(c *Ctx, rule string) {
 	for _, name := range []string{"get", "GetAt"} {
 		var fs *FuncSrc
 		if name == "get" {
-			fs = p.Func("packetcache", "", "get")
+			fs = lookupFn
 		} else {
 			fs = p.Func("packetcache", "Cache", "GetAt")
 		}
@@ -281,7 +290,25 @@ func cacheLookupRules(c *Ctx, rule string) {
 			}
 		}
 		ok := getCall != nil && getCall.Call.Args[0] == ssa.Value(fn.Params[1]) && isLoadOfField(getCall.Call.Args[1], fEntries) && getCall.Call.Args[2] == ssa.Value(fn.Params[2])
-		if ok {
+		if getCall == nil && lookupFn == g {
+			// Get scans itself: the loop is over its own ring (seqno and buffer are its
+			// parameters: scan and copy-out rules above)
+			info := g.Pkg.TypesInfo
+			nown, nother := 0, 0
+			ast.Inspect(g.Body(), func(n ast.Node) bool {
+				if l := asScanLoop(info, n); l != nil {
+					if sel, isSel := unparen(l.X).(*ast.SelectorExpr); isSel && info.Uses[sel.Sel] == types.Object(fEntries) {
+						if id, isId := unparen(sel.X).(*ast.Ident); isId && g.Decl != nil && g.Decl.Recv != nil && len(g.Decl.Recv.List[0].Names) == 1 && info.Uses[id] == info.Defs[g.Decl.Recv.List[0].Names[0]] {
+							nown++
+							return true
+						}
+					}
+					nother++
+				}
+				return true
+			})
+			c.Check(nown == 1 && nother == 0, rule, "Get delegates to get", g.Pos(), "Get scans its own ring for its own seqno into the caller's buffer", "Get does not look up its own seqno in its own ring into the caller's buffer")
+		} else if ok {
 			for _, b := range fn.Blocks {
 				r, isR := b.Instrs[len(b.Instrs)-1].(*ssa.Return)
 				if !isR || b == fn.Recover {
@@ -297,7 +324,9 @@ func cacheLookupRules(c *Ctx, rule string) {
 				ok = false
 			}
 		}
-		c.Check(ok, rule, "Get delegates to get", g.Pos(), "get(seqno, cache.entries, result); returns its count or 0", "Get does not look up its own seqno in its own ring into the caller's buffer, or returns something else than that lookup's count")
+		if getCall != nil || lookupFn != g {
+			c.Check(ok, rule, "Get delegates to get", g.Pos(), "get(seqno, cache.entries, result); returns its count or 0", "Get does not look up its own seqno in its own ring into the caller's buffer, or returns something else than that lookup's count")
+		}
 	} else {
 		c.Unknown(rule, "Get delegates to get", 0, "packetcache.(*Cache).Get not found")
 	}
@@ -344,7 +373,19 @@ func slotBufBase(info *types.Info, e ast.Expr, fBuf *types.Var) ast.Expr {
 	if s := info.Selections[sel]; s == nil || s.Obj() != types.Object(fBuf) {
 		return nil
 	}
-	return sel.X
+	return stripAddr(sel.X)
+}
+
+// stripAddr: (&(x)) designates the same slot as x when a field or method is selected from it.
+func stripAddr(e ast.Expr) ast.Expr {
+	for {
+		e = unparen(e)
+		if u, ok := e.(*ast.UnaryExpr); ok && u.Op == token.AND {
+			e = u.X
+			continue
+		}
+		return e
+	}
 }
 
 func cacheStoreRules(c *Ctx, rule string) {
@@ -696,10 +737,39 @@ func readerStoreRules(c *Ctx, rule string) {
 		}
 		return ""
 	}
+	stStore, _ := ff.At(storeC)
+	// the argument is packet.<name>, or a local that holds it at the call
+	isPktField := func(e ast.Expr, name string) bool {
+		if pktObj(e) == pkt && fieldName(e) == name {
+			return true
+		}
+		t := ff.term(e)
+		if t == nil || stStore == nil {
+			return false
+		}
+		isIt := func(u *Term) bool {
+			if u == nil || u.K != 'f' || u.Obj == nil || u.Obj.Name() != name {
+				return false
+			}
+			for u.K == 'f' && len(u.Args) == 1 {
+				u = u.Args[0]
+			}
+			return u.K == 'v' && u.Obj == pkt
+		}
+		for _, f := range stStore.Facts() {
+			if f.Op != "eq" || !f.Pos || f.B == nil {
+				continue
+			}
+			if (f.A.String() == t.String() && isIt(f.B)) || (f.B.String() == t.String() && isIt(f.A)) {
+				return true
+			}
+		}
+		return false
+	}
 	okKey := pkt != nil && len(storeC.Args) == 5 &&
-		pktObj(storeC.Args[0]) == pkt && fieldName(storeC.Args[0]) == "SequenceNumber" &&
-		pktObj(storeC.Args[1]) == pkt && fieldName(storeC.Args[1]) == "Timestamp" &&
-		pktObj(storeC.Args[3]) == pkt && fieldName(storeC.Args[3]) == "Marker" &&
+		isPktField(storeC.Args[0], "SequenceNumber") &&
+		isPktField(storeC.Args[1], "Timestamp") &&
+		isPktField(storeC.Args[3], "Marker") &&
 		ff.DominatedByNode(storeC, unmC)
 	c.Check(okKey, rule, "readLoop: stored under the packet's own seqno, timestamp, marker", storeC.Pos(), "Store(packet.SequenceNumber, packet.Timestamp, _, packet.Marker, buf[:bytes]) after packet.Unmarshal(buf[:bytes])", "the packet is stored under a seqno/timestamp/marker that is not parsed from the stored bytes")
 	okAnn := len(announce.Args) >= 2 && pktObj(announce.Args[0]) == pkt && fieldName(announce.Args[0]) == "SequenceNumber" && argIsResult(ff, announce, announce.Args[1], storeC, 1)
